@@ -20,16 +20,7 @@ CTXS = ["c1", "c2"]
 
 def stage_m(chk, tier):
     cfg = "Storage_design.cfg" if tier == "quick" else "Storage_design_t.cfg"
-    r = core.tlc("Storage", cfg, workers=8, timeout=1500, coverage=True, mem="8g")
-    core.tlc_ok(r, f"Storage/{cfg} (design must satisfy Durable, NoForeign, ...)")
-    chk.cov["states"] = r.distinct
-    chk.cov["transitions"] = r.generated
-    chk.cov["model_cfg"] = cfg
-    chk.cov["model_wall_s"] = round(r.wall, 1)
-    for act in ("Store", "ManualFlush", "Compact", "CrashRestart", "CleanRestart"):
-        if r.action_cov.get(act, 0) == 0:
-            raise core.ToolError(f"vacuity: action {act} never taken in {cfg}")
-    chk.cov["action_coverage"] = r.action_cov
+    r = storage.model_stage_m(chk, cfg, "C01")
     # as-built: TLC must find a Durable counterexample (documents the open findings)
     ra = core.tlc("Storage", "Storage_asbuilt.cfg", workers=4, timeout=600)
     chk.cov["asbuilt_model_violates"] = ra.violated
@@ -54,15 +45,11 @@ def judge(chk, beh, recs, problems, cfgdesc, stats):
             return
         stats["points"] += 1
         m = c["obs"]
-        if c.get("crash") == "partial":
+        if storage.partial_branch_mismatch(c, real):
             # which type's files were written first is hash-map order in the code; the model
             # chose one; if reality chose the other this behaviour's predictions do not apply
-            l0 = [s for s in m["segs"] if s < 10000]
-            label = "%05d" % (max(l0) if l0 else 0)
-            got = storage.types_with_files(real.get("fs"), real.get("uids"), label)
-            if got != set(c["part"]):
-                stats["partial_other_branch"] += 1
-                return
+            stats["partial_other_branch"] += 1
+            return
         for t in TYPES:
             des = Counter(k for (k, _c) in storage.design_rows(beh, i, t))
             asb = storage.model_bag(m, t)
@@ -121,45 +108,20 @@ def judge(chk, beh, recs, problems, cfgdesc, stats):
 
 def stage_r(chk, tier, bindir):
     rnd = random.Random(core.seed())
+    q = tier == "quick"
     plans = [
-        # (name, cap, k, gen_len, n_sim, n_replay)
-        ("c01-cap2k2", 2, 2, 8, 400, 70 if tier == "quick" else 500),
-        ("c01-cap3k3", 3, 3, 10, 300, 30 if tier == "quick" else 300),
+        {"name": "c01-cap2k2", "cap": 2, "k": 2, "gen_len": 8, "n_sim": 400, "n_rep": 70 if q else 500},
+        {"name": "c01-cap3k3", "cap": 3, "k": 3, "gen_len": 10, "n_sim": 300, "n_rep": 30 if q else 300},
     ]
-    if tier == "thorough":
-        plans.append(("c01-cap1k2", 1, 2, 8, 300, 200))
-        plans.append(("c01-cap4k2", 4, 2, 12, 300, 200))
-    stats = Counter()
-    total_feat = set()
-    cov_feat = set()
-    for (name, cap, k, gen_len, n_sim, n_rep) in plans:
-        cfgp = storage.gen_cfg(name, cap=cap, k=k, types=TYPES, ctxs=CTXS, fix=[], gen_len=gen_len)
-        behs, r = storage.behaviours(cfgp, n=n_sim, gen_len=gen_len, seed=core.seed() + cap * 7 + k)
-        rnd.shuffle(behs)
-        chosen, covered, allf = storage.select(behs, n_rep)
-        total_feat |= {f"{name}:{f}" for f in allf}
-        cov_feat |= {f"{name}:{f}" for f in covered}
-        core.log(f"[C01] {name}: {len(behs)} behaviours generated, {len(chosen)} replayed, features {len(covered)}/{len(allf)}")
-        for bi, beh in enumerate(chosen):
-            recs, problems = storage.run_behaviour(
-                bindir, beh, root=core.WORK / "c01" / f"{name}-{bi}", cap=cap, k=k, types=TYPES, ctxs=CTXS)
-            stats["behaviours"] += 1
-            stats["lifetimes"] += 1 + sum(1 for c in beh if c["cmd"] in ("crash", "restart") or c.get("crash", "none") != "none")
-            if any(c.get("crash", "none") != "none" or c["cmd"] == "crash" for c in beh):
-                stats["with_crash"] += 1
-            judge(chk, beh, recs, problems, {"cap": cap, "k": k}, stats)
-            if bi < 2:
-                chk.sample({"config": name, "commands": [
-                    {x: c[x] for x in c if x != "obs"} for c in beh], "fired": beh[-1]["obs"]["fired"]})
-    chk.cov["traces_validated_against_impl"] = stats["behaviours"]
+    if not q:
+        plans.append({"name": "c01-cap1k2", "cap": 1, "k": 2, "gen_len": 8, "n_sim": 300, "n_rep": 200})
+        plans.append({"name": "c01-cap4k2", "cap": 4, "k": 2, "gen_len": 12, "n_sim": 300, "n_rep": 200})
+    stats = storage.campaign(chk, "C01", plans, TYPES, CTXS, bindir, judge, rnd)
     chk.cov["evaluations"] = stats["points"]
     chk.cov["distinct_nontrivial"] = stats["with_crash"]
     chk.cov["rule"] = ("behaviours = TLC-simulated histories of STORE/FLUSH/compaction/crash-at-hook/restart over 2 types x 2 contexts, "
                        "selected by greedy cover of (command x crash stage, adjacent command pairs, fired defects); non-trivial = contains a crash; "
                        "every observation point compares QUERY bag and COUNT per type with the property and with the as-built model")
-    chk.cov["replay_stats"] = dict(stats)
-    chk.cov["feature_classes_covered"] = len(cov_feat)
-    chk.cov["feature_classes_reachable_in_sim"] = len(total_feat)
 
 
 def run(tier):
